@@ -15,6 +15,7 @@ report; distances against the Euclidean distance of the two grid points; positiv
 """
 from __future__ import annotations
 
+import json
 import math
 from fractions import Fraction
 
@@ -26,16 +27,75 @@ RULE = ("grid cases: every direction-grid algorithm (ico, cube3D, randomS) x N (
         "26/42 chosen by the seed, plus the F2 witness grids ico_42, cube3D_26, randomS_162 and the F11 witness grids; thorough: 4..62 "
         "densely, 72..162 sparsely) x radial grids with 1..4 radii (equal and unequal increments, lists / linspace / range); four "
         "grids again with every region's vertex list rotated (vertex at infinity not first); every cell, every adjacency entry (both "
-        "orientations) is compared and checked.  polygon cases: random convex polygons (ellipse / Valtr, 3..24 vertices, aspect "
+        "orientations) is compared and checked.  Every grid case draws the REPRESENTATION of each argument from the seed "
+        "(position_grid_cartesian as True / np.True_ / np.bool_(True) / 1 / np.int64(1) / element of a bool array; names as str / np.str_; "
+        "PositionGrid directly or FullGrid('zero', ..., factor as 2 / 2.0 / np.int64(2) / np.float64(2.0))); all families are swept over "
+        "3 (quick) / 5 small fixed grids, and the flag off (False / np.False_ / 0) is cross-checked against plain False.  polygon cases: random convex polygons (ellipse / Valtr, 3..24 vertices, aspect "
         "ratios down to 1e-5, sizes 1e-6..1e3) in random order and random rigid position; centrally symmetric integer polygons "
         "(hexagons, octagons, decagon, rectangles: exact zeros of sign/cross) in every rotation of the start vertex, both directions "
         "and with the opposite vertex listed second; nearly symmetric ones (opposite vertex off by 1e-9..1e-7); degenerate inputs "
         "(1, 2 points, collinear points, empty array); get_polygon_area alone on ordered polygons.  A grid case is non-trivial when "
         "it has a bounded cell and >= 4 checked faces; a polygon case when it has >= 4 vertices in a non-sorted order; distinct by "
-        "(direction grid, radial text) / by coordinates.")
+        "(direction grid, radial text, argument representations) / by coordinates.")
 CHUNK = 60
 ALGS = ("ico", "cube3D", "randomS")
 REL = 1e-9
+
+# ---------------------------------------------------------------------------------------------------------------------
+# input representations: the same mathematical input in another representation the public API accepts on the unchanged
+# tree; the expected result does not depend on it (the model always receives the denoted values)
+# ---------------------------------------------------------------------------------------------------------------------
+FLAG_ON = ("True", "np.True_", "np.bool_(True)", "1", "np.int64(1)", "bool_array_element")
+FLAG_OFF = ("False", "np.False_", "0")
+STR_REPS = ("str", "np.str_")
+FACTOR_REPS = ("2", "2.0", "np.int64(2)", "np.float64(2.0)")
+VIAS = ("PositionGrid", "FullGrid")
+REPS_LEFT_OUT = {
+    "position_grid_cartesian='True' / 'False' (str)": "accepted, but a non-empty string is truthy whatever it says: not a representation "
+                                                      "of the Boolean; left out",
+    "position_grid_cartesian=None": "accepted as falsy, agrees with False; not a Boolean representation, left out",
+    "position_grid_cartesian=1.0 / np.float64(1.0)": "accepted and identical to True on the unchanged tree; floats are not a usual carrier of a "
+                                                     "flag, left out of the sweep",
+    "grid names as bytes": "GridNameParser splits str; bytes raise TypeError on the unchanged tree",
+}
+
+
+def _flag_value(name):
+    return {"True": True, "np.True_": np.True_, "np.bool_(True)": np.bool_(True), "1": 1, "np.int64(1)": np.int64(1),
+            "bool_array_element": np.array([False, True, True])[1],
+            "False": False, "np.False_": np.False_, "0": 0}[name]
+
+
+def _str_value(kind, text):
+    return np.str_(text) if kind == "np.str_" else str(text)
+
+
+def _factor_value(name):
+    return {"2": 2, "2.0": 2.0, "np.int64(2)": np.int64(2), "np.float64(2.0)": np.float64(2.0)}[name]
+
+
+def _draw_rep(rng):
+    via = rng.choice(VIAS)
+    rep = {"flag": rng.choice(FLAG_ON), "o": rng.choice(STR_REPS), "t": rng.choice(STR_REPS), "via": via}
+    if via == "FullGrid":
+        rep["factor"] = rng.choice(FACTOR_REPS)
+    return rep
+
+
+def _build_position_grid(case, flag_name=None):
+    """the package object of a grid case, built through the public constructors with the argument representations of the case
+    (default: plain Python True / str / PositionGrid).  Returns (position grid, full grid or None, factor or None)."""
+    from molgri.space.fullgrid import FullGrid, PositionGrid
+    rep = case.get("rep") or {}
+    flag = _flag_value(flag_name or rep.get("flag", "True"))
+    o = _str_value(rep.get("o", "str"), case["o"])
+    t = _str_value(rep.get("t", "str"), case["t"])
+    if rep.get("via", "PositionGrid") == "FullGrid":
+        fac = _factor_value(rep.get("factor", "2"))
+        fg = FullGrid(_str_value(rep.get("o", "str"), "zero"), o, t, factor=fac, position_grid_cartesian=flag)
+        return fg.position_grid, fg, float(fac)
+    return PositionGrid(o, t, position_grid_cartesian=flag), None, None
+
 
 
 # =================================================================================================================
@@ -264,16 +324,44 @@ def gen_grid_cases(ctx):
                     yield {"kind": "grid", "o": f"{alg}_{N}", "t": t}
 
 
+REP_SWEEP_CASES = [("ico_12", "[0.2,0.3]"), ("cube3D_8", "[0.15,0.3,0.5]"), ("randomS_9", "[0.3]")]
+
+
+def gen_representation_sweep(ctx):
+    """every family of argument representations over a few small fixed grids (every value of every family at least once per grid)"""
+    grids = REP_SWEEP_CASES if ctx.quick else REP_SWEEP_CASES + [("ico_20", "linspace(0.1,0.4,4)"), ("cube3D_15", "[0.1,0.12,0.3]")]
+    for o, t in grids:
+        k = 0
+        for flag in FLAG_ON:
+            for via in VIAS:
+                rep = {"flag": flag, "o": STR_REPS[k % 2], "t": STR_REPS[(k // 2) % 2], "via": via}
+                if via == "FullGrid":
+                    rep["factor"] = FACTOR_REPS[(k // 2) % 4]
+                k += 1
+                yield {"kind": "grid", "o": o, "t": t, "rep": rep, "sweep": True}
+    # the flag off in its representations: identical to the plain False (default, spherical-shell mode)
+    for o, t in grids[:2]:
+        for k, flag in enumerate(FLAG_OFF):
+            for via in VIAS:
+                rep = {"flag": flag, "o": STR_REPS[k % 2], "t": STR_REPS[(k + 1) % 2], "via": via}
+                if via == "FullGrid":
+                    rep["factor"] = FACTOR_REPS[k % 4]
+                yield {"kind": "grid", "o": o, "t": t, "rep": rep, "mode": "flag_off"}
+
+
 def cases(ctx):
-    yield from gen_grid_cases(ctx)
+    for c in gen_grid_cases(ctx):
+        c["rep"] = _draw_rep(ctx.rng)
+        yield c
+    yield from gen_representation_sweep(ctx)
     # radial grids starting at 0 (accepted by get_increments since commit cae935f) and invalid ones: model <-> implementation only;
     # the property needs positive radii, so these stay out of the oracle
     for o, t in [("ico_12", "[0, 0.1]"), ("ico_12", "[0, 0.2, 0.5]"), ("ico_12", "[0]"), ("cube3D_8", "[0,0.3]"),
                  ("randomS_9", "[0, 0.15]"), ("ico_12", "[0.1, 0.1, 0.3]"), ("ico_12", "[0, 0, 0.3]"), ("ico_7", "linspace(0,0.4,3)")]:
-        yield {"kind": "grid", "o": o, "t": t, "corr_only": True}
+        yield {"kind": "grid", "o": o, "t": t, "corr_only": True, "rep": _draw_rep(ctx.rng)}
     # the same diagrams with rotated region lists (vertex at infinity not in first place)
     for o, t in [("randomS_5", "[0.2,0.3]"), ("ico_4", "[0.15,0.3,0.5]"), ("ico_12", "[0.2,0.3]"), ("cube3D_9", "[0.3]")]:
-        yield {"kind": "grid", "o": o, "t": t, "rot": ctx.rng.randint(1, 3)}
+        yield {"kind": "grid", "o": o, "t": t, "rot": ctx.rng.randint(1, 3), "rep": _draw_rep(ctx.rng)}
     yield from gen_poly_cases(ctx)
 
 
@@ -304,13 +392,36 @@ def _impl_poly(case):
         return {"err": core.errname(e)}
 
 
-def _impl_grid(case):
-    from molgri.space.fullgrid import PositionGrid
+def _observe(pg):
+    return (np.array(pg.get_all_position_volumes(), dtype=float), pg.get_borders_of_position_grid().tocoo(),
+            pg.get_distances_of_position_grid().tocoo(), pg.get_adjacency_of_position_grid().tocoo())
+
+
+def _impl_flag_off(case):
+    """the flag off in some representation against the plain Python False: the same (spherical-shell) numbers"""
     try:
         with core.quiet():
-            pg = PositionGrid(case["o"], case["t"], position_grid_cartesian=True)
+            pg, _fg, _fac = _build_position_grid(case)
+            V, S, D, A = _observe(pg)
+            ref_case = {"o": case["o"], "t": case["t"], "rep": {"via": (case.get("rep") or {}).get("via", "PositionGrid")}}
+            Vr, Sr, Dr, Ar = _observe(_build_position_grid(ref_case, flag_name="False")[0])
+    except Exception as e:
+        return {"err": core.errname(e), "msg": str(e)[:200]}
+    same = (np.array_equal(V, Vr) and np.array_equal(S.toarray(), Sr.toarray()) and np.array_equal(D.toarray(), Dr.toarray())
+            and np.array_equal(A.toarray(), Ar.toarray()))
+    return {"flag_off_same": bool(same), "cartesian_diagram_built": bool(hasattr(pg, "voronoi_cells"))}
+
+
+def _impl_grid(case):
+    if case.get("mode") == "flag_off":
+        return _impl_flag_off(case)
+    full = None
+    try:
+        with core.quiet():
+            pg, fg, fac = _build_position_grid(case)
             if case.get("rot"):
-                # same diagram, every region's vertex list rotated (scipy does not promise a position for the vertex at infinity)
+                # same diagram, every region's vertex list rotated (scipy does not promise a position for the vertex at infinity);
+                # the object comes from the real constructor, only the public attribute is replaced
                 from types import SimpleNamespace
                 vc = pg.voronoi_cells
                 k = int(case["rot"])
@@ -326,12 +437,15 @@ def _impl_grid(case):
             radii = np.array(pg.get_radii(), dtype=float)
             tg = np.array(pg.t_grid.trans_grid, dtype=float)
             vor = pg.voronoi_cells
+            if fg is not None and not case.get("rot"):
+                # one body rotation ("zero"): the full-grid matrices are the position matrices times factor^2 / factor
+                full = {"factor": fac, "B": fg.get_full_borders().toarray(), "Dist": fg.get_full_distances().toarray()}
     except Exception as e:
         res = {"err": core.errname(e), "msg": str(e)[:200]}
         try:
             # the two sub-grids, without the Cartesian branch of __init__ (no get_increments, no Voronoi)
             with core.quiet():
-                pg0 = PositionGrid(case["o"], case["t"], position_grid_cartesian=False)
+                pg0 = _build_position_grid(case, flag_name="False")[0]
                 res["og"] = np.array(pg0.get_o_grid().get_grid_as_array(only_upper=False), dtype=float)
                 res["tg"] = np.array(pg0.t_grid.trans_grid, dtype=float)
         except Exception:
@@ -341,7 +455,7 @@ def _impl_grid(case):
             "D": (D.row.copy(), D.col.copy(), np.array(D.data, dtype=float)), "Dshape": D.shape,
             "A": (A.row.copy(), A.col.copy()), "Ashape": A.shape, "polys": polys, "pts": pts, "og": og, "radii": radii, "tg": tg,
             "vor_points": np.array(vor.points), "vertices": np.array(vor.vertices), "regions": [list(map(int, r)) for r in vor.regions],
-            "point_region": [int(x) for x in vor.point_region]}
+            "point_region": [int(x) for x in vor.point_region], "full": full}
 
 
 def impl(case):
@@ -358,6 +472,8 @@ def _pts(a):
 def model_ops(case, out):
     if case["kind"] == "poly":
         return [{"op": case.get("op", "order"), "pts": _pts(case["pts"])}]
+    if case.get("mode") == "flag_off":
+        return []
     if "err" in out:
         if "og" in out:
             return [{"op": "extended", "o": _pts(out["og"]), "t": [core.rat(v) for v in out["tg"]]}]
@@ -474,6 +590,8 @@ def _compare_poly(ctx, case, out, m):
 
 
 def _compare_grid(ctx, case, out, ms):
+    if case.get("mode") == "flag_off":
+        return
     if "err" in out:
         ctx.branch("grid/error:" + out["err"])
         if ms:
@@ -547,6 +665,22 @@ def _compare_grid(ctx, case, out, ms):
             if abs(hv - v) > 1e-12 * hv:
                 ctx.corr("cartesian/volume of a closed cell", case, {"cell": i, "volume": float(v)}, {"cell": i, "hull volume of region": float(hv)})
                 return
+    # (5) through FullGrid with a single body rotation: the full-grid matrices are the position matrices times factor^2 / factor
+    full = out.get("full")
+    if full:
+        n = len(out["pts"])
+        Sd = np.zeros((n, n))
+        Sd[out["S"][0], out["S"][1]] = out["S"][2]
+        Dd = np.zeros((n, n))
+        Dd[out["D"][0], out["D"][1]] = out["D"][2]
+        f = full["factor"]
+        if full["B"].shape != (n, n) or not np.allclose(full["B"], Sd * f ** 2, rtol=1e-12, atol=0):
+            ctx.corr("FullGrid(zero, ...).get_full_borders() = factor^2 * borders of its position grid", case,
+                     {"shape": list(full["B"].shape)}, {"factor": f})
+        if full["Dist"].shape != (n, n) or not np.allclose(full["Dist"], Dd * f, rtol=1e-12, atol=0):
+            ctx.corr("FullGrid(zero, ...).get_full_distances() = factor * distances of its position grid", case,
+                     {"shape": list(full["Dist"].shape)}, {"factor": f})
+        ctx.branch("grid/full_grid_matrices_compared")
     ctx.branch("grid/compared")
 
 
@@ -636,6 +770,19 @@ def _face_area(W, pi, pj, scale):
 def _oracle_grid(ctx, case, out):
     from scipy.spatial import ConvexHull
     o = case["o"]
+    rep = case.get("rep") or {}
+    ctx.branch("rep/flag=" + rep.get("flag", "True"))
+    ctx.branch("rep/names=" + rep.get("o", "str") + "," + rep.get("t", "str"))
+    ctx.branch("rep/via=" + rep.get("via", "PositionGrid") + ("" if "factor" not in rep else ",factor=" + rep["factor"]))
+    if case.get("mode") == "flag_off":
+        if "err" in out:
+            ctx.fail("C06:flag_representation", f"position_grid_cartesian={rep.get('flag')} (off) raised {out['err']}: {out.get('msg')}", case)
+        elif not out["flag_off_same"] or out["cartesian_diagram_built"]:
+            ctx.fail("C06:flag_representation", f"position_grid_cartesian={rep.get('flag')} does not give the results of False "
+                     "(the same input in another representation)", case, "identical to position_grid_cartesian=False", "different")
+        else:
+            ctx.nt(("flag_off", o, case["t"], json.dumps(rep, sort_keys=True)))
+        return
     if case.get("corr_only"):
         ctx.branch("grid/zero_first_or_invalid_radial_grid(correspondence only)")
         return
@@ -748,7 +895,7 @@ def _oracle_grid(ctx, case, out):
             ctx.fail("C06:distance_symmetry", f"distance ({r},{c}) = {v} but ({c},{r}) = {Dd.get((c, r))}", case)
             return
     if cells and nfaces >= 4:
-        ctx.nt(("grid", o, case["t"]))
+        ctx.nt(("grid", o, case["t"], json.dumps(rep, sort_keys=True)))
     if n_o in (12, 42):
         ctx.sample(case, limit=6)
 
@@ -886,6 +1033,15 @@ def run(ctx):
     ctx.note("numpy's argsort is compared element by element only where the model's exact keys show that float rounding cannot "
              "change it (angles separated by > 1e-6 and away from the branch cut, unique largest normal); otherwise only the area is "
              "compared and it is recorded whether the two orders agree up to rotation/reflection of the cycle")
+    ctx.extra_cov["argument_representations"] = {
+        "position_grid_cartesian (on)": list(FLAG_ON), "position_grid_cartesian (off, against plain False)": list(FLAG_OFF),
+        "o-grid name / radial text": list(STR_REPS), "FullGrid factor": list(FACTOR_REPS), "constructed through": list(VIAS),
+        "established_on_unchanged_tree": "all listed representations are accepted and give results bitwise identical to the plain-Python "
+                                         "reference (True / False, str, factor 2, PositionGrid)",
+        "left_out": REPS_LEFT_OUT}
+    ctx.note("every grid case draws the representation of each argument it passes to the package from the seed (flag, both names, "
+             "PositionGrid directly or FullGrid('zero', ...) with a factor representation); quick and thorough sweep every family over "
+             "small fixed grids; the model receives the denoted values")
     ctx.note("faces between two unbounded cells (only in the F11 grids) are not checked by the oracle; counted in the input distribution")
     _run_cases(ctx, corpus + list(cases(ctx)))
 
